@@ -88,6 +88,7 @@ type Machine struct {
 	syncVCs      map[any]*vclock
 	mapRaces     map[*Map]*mapRaceState
 	raceReported bool
+	selChoices   int // select statements resolved to a ready case other than the first
 	opaqueN int
 
 	instrs     int64
